@@ -12,7 +12,7 @@ theorem prov_nstart {s s' : State} {nid t : Nat} {e : Bool} {v : Nat} (h : Prov 
   unfold stepNstart at hs
   split at hs
   · simp at hs
-  · dsimp only at hs
+  · try dsimp only at hs
     split at hs <;> simp at hs <;> subst hs <;> provn_close
 
 set_option maxHeartbeats 4000000 in
